@@ -136,13 +136,48 @@ def cli_pairs(asm, frs):
     return pairs
 
 
+def run_focli(sc):
+    """the third command line tool, find-overlaps: an assembly file plus '<name>:<start>-<end>' specifications; its report lines are parsed back
+    (scaffold, position label, fragment, bait, overlap length)"""
+    import os
+    import tempfile
+    from click.testing import CliRunner
+    from tola.assembly.format import format_agp, format_tpf
+    from tola.assembly.scripts import find_overlaps
+    asm, frs = _asm(sc)
+    t = {"tid": sc["tid"], "kind": "focli", "scaffolds": [], "baits": sc["baits"], "reports": [], "exc": "", "exit": 0, "fmt": sc["fmt"]}
+    for scf in asm.scaffolds:
+        rows = []
+        for r in scf.rows:
+            rows.append({"k": "F", "name": r.name, "s": r.start, "e": r.end, "st": r.strand} if hasattr(r, "strand") else {"k": "G", "name": "gap", "s": 1, "e": r.length, "st": 0})
+        t["scaffolds"].append({"name": scf.name, "rows": rows})
+    with tempfile.TemporaryDirectory() as d:
+        p = os.path.join(d, "in." + sc["fmt"])
+        with open(p, "w") as fh:
+            (format_agp if sc["fmt"] == "agp" else format_tpf)(asm, fh)
+        specs = [f"{b['name']}:{b['s']}-{b['e']}" for b in sc["baits"]]
+        try:
+            res = CliRunner().invoke(find_overlaps.cli, [p] + specs)
+        except Exception as e:  # noqa: BLE001
+            t["exc"] = type(e).__name__
+            return t
+    t["exit"] = res.exit_code
+    if res.exception is not None and not isinstance(res.exception, SystemExit):
+        t["exc"] = type(res.exception).__name__
+    for m in re.finditer(r"^  (only row|first row|last row|row \d+) of (\S+): (\S+):(\d+)-(\d+)\([-+.]\)\n    overlaps (\S+):(\d+)-(\d+)\(\+\) by ([\d,]+) bp$", res.output, flags=re.M):
+        t["reports"].append({"pos": m.group(1), "scaffold": m.group(2), "name": m.group(3), "s": int(m.group(4)), "e": int(m.group(5)),
+                             "bname": m.group(6), "bs": int(m.group(7)), "be": int(m.group(8)), "ovr": int(m.group(9).replace(",", ""))})
+    t["lines"] = sum(1 for ln in res.output.splitlines() if ln.startswith("    overlaps "))
+    return t
+
+
 def main(tier, replay=None):
     run = C.Run("C19", tier)
     cfg = TIERS[tier]
     if replay:
         tr = json.load(open(replay))["trace"]
         tr["tid"] = 1
-        traces = [run_pair(tr) if tr["kind"] == "pair" else run_asm(dict(tr, cli=1))]
+        traces = [run_pair(tr) if tr["kind"] == "pair" else run_focli(tr) if tr["kind"] == "focli" else run_asm(dict(tr, cli=1))]
         jr = C.judge("IntervalsTrace", traces, run.dir, consts=cfg["mc"], spec="TraceSpec")
         C.finish(run, "C19", C.report(run, "C19", jr["V"], {1: traces[0]}))
     mc = C.tlc_ok(C.tlc("Intervals", f"SPECIFICATION Spec\nCONSTANTS {cfg['mc']}\nINVARIANT ScanCorrect\nINVARIANT Laws\nINVARIANT ValidCutType\n"
@@ -201,12 +236,25 @@ def main(tier, replay=None):
     for s in pairs + asms:
         tid += 1
         s["tid"] = tid
+    # the find-overlaps command line tool on a sample of the assemblies with one or two specifications (model-drift clauses: not C19's QC)
+    fo = []
+    for a in rng.sample(base_asms, min(cfg["cli"], len(base_asms))):
+        nb = rng.choice([1, 2])
+        baits = []
+        for _ in range(nb):
+            s0 = rng.randint(1, 12)
+            baits.append({"name": rng.choice("ab"), "s": s0, "e": rng.randint(s0, min(12, s0 + 4)), "st": 1})
+        tid += 1
+        fo.append({"tid": tid, "frs": a["frs"], "cut": a["cut"], "baits": baits, "fmt": rng.choice(["agp", "tpf"])})
     tp = C.pmap("harness.c19", "run_pair", pairs, chunk=1000)
     ta = C.pmap("harness.c19", "run_asm", asms, chunk=300)
-    traces = tp + ta
+    tf = C.pmap("harness.c19", "run_focli", fo, chunk=100)
+    traces = tp + ta + tf
     jr = C.judge("IntervalsTrace", traces, run.dir, consts=cfg["mc"], shard=max(500, len(traces) // 16 + 1), spec="TraceSpec")
     by = {t["tid"]: t for t in traces}
     n = C.report(run, "C19", jr["V"], by)
+    for m in jr["M"][:5]:
+        print(f"MODEL-DRIFT action={m[2]} trace={m[1]} detail={m[3]}")
     cov = {
         "states": mc["distinct"], "transitions": mc["generated"], "traces_validated_against_impl": jr["judged"], "exhaustive": True,
         "evaluations": len(traces), "distinct_nontrivial": jr["N"].get("asm_with_overlap", 0) + sum(1 for t in tp if t["x"]["name"] == t["y"]["name"]),
@@ -219,7 +267,9 @@ def main(tier, replay=None):
         "pair_constants": cfg["pairs"], "assembly_constants": cfg["asm"], "model_constants": cfg["mc"],
         "pair_traces": len(tp), "assembly_traces": len(ta), "cli_runs": len(clisel), "assemblies_with_overlap": jr["N"].get("asm_with_overlap", 0),
         "action_coverage": C.coverage_counts(mc["out"]), "unbounded_proofs_of_definition_laws": proofs,
-        "samples": [tp[len(tp) // 2], ta[len(ta) // 2], [t for t in ta if t["cli"]][0]],
+        "find_overlaps_cli_runs": len(tf), "find_overlaps_report_lines": jr["N"].get("find_overlaps_reports", 0),
+        "model_drift": len(jr["M"]), "model_conformant": len(jr["M"]) == 0,
+        "samples": [tp[len(tp) // 2], ta[len(ta) // 2], [t for t in ta if t["cli"]][0], tf[0]],
         "known_findings_seen": run.known,
     }
     C.write_evidence(run, "C19", cov, assumptions=["TLC + Json module trusted", "None is recorded as -1 and booleans as 0/1 by harness/c19.py",
